@@ -61,7 +61,8 @@ Section File.
   Proof.
     intros Hs A Hk Hc. cbv zeta.
     pose proof (sok_step _ _ _ _ _ _ _ Hs A) as Hs1. unfold sok in Hs1.
-    destruct (apply_record_cases _ _ _ _ _ _ _ _ _ A) as [[-> A2]|(a & Hj & -> & A2)].
+    destruct (apply_record_cases _ _ _ _ _ _ _ _ _ A)
+      as [[-> A2]|[(a & Hj & -> & A2)|(l & cs & cmd & ex & rt & -> & -> & A2)]].
     - (* nothing *)
       assert (U : forall x, update_record x ONothing = None) by reflexivity.
       rewrite U. exists ONothing. split; [exact A2|]. split; [reflexivity|].
@@ -76,6 +77,12 @@ Section File.
       split; [apply known_class_step; assumption|].
       split; [|exact Hfix].
       destruct (cmd_ok_answer _ _ _ Hj Hc) as [Hok Hsp]. apply answer_cmd_ok; assumption.
+    - (* background system command: the updater writes the record without expected stdout;
+         the rerun spawns the same command and accepts (nothing is expected) *)
+      cbn [Update.update_record reread option_map].
+      exists (OSystem None false). split; [apply A2|].
+      split; [reflexivity|]. split; [reflexivity|]. split; [reflexivity|]. split; [exact I|].
+      reflexivity.
   Qed.
 
   (* ---- once the halt flag is set every record is copied, nothing is executed *)
